@@ -141,6 +141,7 @@ class OperatorTable(Expression):
                 out += BREAK
 
             out += Code('_prec') << RESULT[0]
+            out += Code('_has_conflict') << False
 
             with out.WHILE(operator_stack):
                 out += Code('_top_prec, _top_assoc, _') << operator_stack[-1]
@@ -149,9 +150,14 @@ class OperatorTable(Expression):
                     pop_operator()
                 with out.ELIF(Code(f'_top_prec == _prec and _top_assoc == 3')):
                     out += (POS << outer_checkpoint)
+                    out += Code('_has_conflict') << True
                     out += BREAK
                 with out.ELSE():
                     out += BREAK
+
+            # A second non-associative operator ends the whole expression.
+            with out.IF(Code('_has_conflict')):
+                out += BREAK
 
             out += operator_marker << Code(f'len({operator_stack})')
             out += operator_stack.append(RESULT)
